@@ -121,3 +121,29 @@ def replay_file(path):
         return 1
     print("not reproduced on the current tree (the real code agrees with the reference on this case)")
     return 0
+
+
+BOUNDS = {
+    "lex": "tokenizer vs an independent reading of the lexical rules: all concatenations of <= 3 lexemes from a 40-lexeme alphabet (symbols, words, digits, quotes, braces, whitespace, stray and non-ASCII characters) plus seeded random strings of 4-11 lexemes",
+    "index": "column index of every free variable and meaning preservation under orderings: 8 formulas x 11 orderings (permutations, subsets, supersets, gaps, duplicates) plus seeded random formula/ordering pairs",
+    "formula": "tokenize -> parse -> free variables -> eval against an independent truth-table evaluator: corner-case list plus seeded random formulas of depth <= 3 over 4 names",
+    "parse": "real parser vs an independent recursive-descent parser on real tokens: all token sequences of length <= 3 (4 in thorough) over 22 lexemes plus random and mutated sentences",
+    "ops": "all pairs of the 256 functions over 3 variables (two index patterns, operands from the same and from a foreign environment) for the binary connectives; not; random triples for ite",
+    "retain": "all 256 functions x 3 filters, plus call sequences sharing one environment",
+}
+
+
+def run_mode(binary, mode, budget, seed, timeout=600):
+    """returns (found dict | None, cases checked)"""
+    try:
+        p = subprocess.run([binary, "search", mode, str(budget), str(seed)], capture_output=True, text=True, timeout=timeout)
+    except subprocess.TimeoutExpired:
+        return None, 0
+    line = (p.stdout.strip().split("\n") or [""])[-1]
+    try:
+        d = json.loads(line)
+    except Exception:
+        return None, 0
+    if p.returncode == 1 and d.get("case") is not None:
+        return d, 0
+    return None, int(d.get("checked", 0))
